@@ -288,8 +288,13 @@ pub fn rng_shuffle<T>(rng: &mut Rng, v: &mut [T]) {
 }
 
 pub fn supported(rng: &mut Rng, ident: &str, allow_huge: bool) -> Decl {
+    supported_capped(rng, ident, allow_huge, usize::MAX)
+}
+
+/// like `supported`, with at most `cap` variants
+pub fn supported_capped(rng: &mut Rng, ident: &str, allow_huge: bool, cap: usize) -> Decl {
     let repr = *rng.pick(&REPRS);
-    let n = size_class(rng, allow_huge);
+    let n = size_class(rng, allow_huge).min(cap);
     let sorted = sorted_values(rng, repr, n);
     let n = sorted.len();
     let gapless = (sorted[n - 1] as i128 - sorted[0] as i128) == n as i128 - 1;
